@@ -33,7 +33,7 @@ impl Opts {
         let base = if self.thorough() { t } else { q };
         let div = match self.variant.as_str() {
             "dbg" => 8,
-            "asan" => 6,
+            "asan" => 10,
             "tsan" => 10,
             "valgrind" => 60,
             _ => 1,
